@@ -91,7 +91,9 @@ pub fn run(a: &Args) {
     for i in 0..a.count as u64 {
         let mut rng = Rng::for_case(a.seed, 18, i);
         let kinds: Vec<&str> = ["mut", "pred", "conv", "addr", "validate", "text"].iter().copied().filter(|k| on(k)).collect();
-        match *rng.pick(&kinds) {
+        let kind = *rng.pick(&kinds);
+        // a panic anywhere in the implementation while the cases of this round are computed is itself a result
+        let r = catch_unwind(std::panic::AssertUnwindSafe(|| { match kind {
             "mut" => {
                 let keys = key_pool();
                 let ms: Vec<Mutation> = (0..rng.range(0, 4)).map(|_| Mutation { key: if rng.chance(1, 2) { rng.pick(&keys).clone() } else { (0..rng.range(0, 4)).map(|_| rng.word()).collect() }, value: (0..rng.range(0, 4)).map(|_| rng.word()).collect() }).collect();
@@ -114,8 +116,22 @@ pub fn run(a: &Args) {
                     Err(_) => ("ETooManyEdges".into(), "PErrShort".into()),
                 };
                 push(&mut out, format!("TPredEncode {} {} {} {}", coq_pred(&p), eres, p.encoded_size(), back), "pred_encode", json!({"nodes": p.nodes.len(), "edges": p.edges.len()}));
-                let rs: Vec<String> = (0..p.nodes.len() + 2).map(|i| match p.node_edges(i) { Some(e) => format!("(Some {})", zlist(e.iter().map(|x| *x as i64))), None => "None".into() }).collect();
+                // a panic of node_edges is recorded as the impossible result `Some [-1]` (edges are u16): both evaluators flag it
+                let rs: Vec<String> = (0..p.nodes.len() + 2).map(|i| { let q = p.clone(); match catch_unwind(move || q.node_edges(i).map(|e| e.to_vec())) {
+                    Ok(Some(e)) => format!("(Some {})", zlist(e.iter().map(|x| *x as i64))), Ok(None) => "None".into(), Err(_) => "(Some [-1])".into() } }).collect();
                 push(&mut out, format!("TNodeEdges {} [{}]", coq_pred(&p), rs.join("; ")), "node_edges", json!({"nodes": p.nodes.len()}));
+                // encoding at the documented limits: exactly / just below / just above 1000 nodes and 1000 edges
+                if rng.chance(1, 12) {
+                    let n = *rng.pick(&[999usize, 1000, 1000, 1001, 3]); let e = *rng.pick(&[999usize, 1000, 1000, 1001, 0]);
+                    let q = Predicate { nodes: vec![Node { edge_start: u16::MAX, program_address: ContentAddress([0; 32]) }; n], edges: vec![0; e] };
+                    let enc = q.encode().map(|it| it.collect::<Vec<u8>>());
+                    let (kind, len, back_ok) = match &enc {
+                        Ok(bs) => (0, bs.len() as i64, Predicate::decode(bs).map(|b| b == q).unwrap_or(false)),
+                        Err(essential_types::predicate::PredicateEncodeError::TooManyNodes) => (1, 0, true),
+                        Err(_) => (2, 0, true),
+                    };
+                    push(&mut out, format!("TPredEncodeSized {} {} {} {} {} {} {}", n, e, kind, len, q.encoded_size(), coq_bool(back_ok), blist(&content_addr(&q).0)), "pred_encode_sized", json!({"nodes": n, "edges": e, "result": kind}));
+                }
                 if let Ok(mut bs) = enc {
                     match rng.below(4) { 0 => { let k = rng.below(bs.len() as u64 + 1) as usize; bs.truncate(k); } 1 => { let k = rng.below(bs.len() as u64) as usize; bs[k] = rng.next() as u8; } 2 => { bs.push(rng.next() as u8); } _ => { bs = (0..rng.range(0, 80)).map(|_| rng.next() as u8).collect(); } }
                     let b2 = bs.clone();
@@ -128,6 +144,11 @@ pub fn run(a: &Args) {
                 push(&mut out, format!("TWord {} {} {}", z(w), blist(&bytes), z(convert::word_from_bytes(bytes))), "word", json!(w));
                 let sl: Vec<u8> = (0..rng.range(0, 11)).map(|_| rng.next() as u8).collect();
                 push(&mut out, format!("TWordSlice {} {}", blist(&sl), z(convert::word_from_bytes_slice(&sl))), "word_slice", json!(sl.len()));
+                let bw = if rng.chance(1, 2) { rng.range(-2, 3) } else { rng.word() };
+                push(&mut out, format!("TBoolWord {} {}", z(bw), match convert::bool_from_word(bw) { Some(false) => 0, Some(true) => 1, None => 2 }), "bool_word", json!(bw));
+                let chunks: Vec<Vec<u8>> = (0..rng.range(0, 4)).map(|_| (0..*rng.pick(&[0i64, 1, 7, 31, 55, 56, 63, 64, 65, 100])).map(|_| rng.next() as u8).collect()).collect();
+                let flat: Vec<u8> = chunks.concat();
+                push(&mut out, format!("THashIter {} {} {}", list_of(&chunks, |c| blist(c)), blist(&essential_hash::hash_bytes_iter(chunks.iter().map(|c| c.as_slice()))), blist(&essential_hash::hash_bytes(&flat))), "hash_iter", json!(chunks.iter().map(|c| c.len()).collect::<Vec<_>>()));
                 let hw: Vec<Word> = (0..rng.range(0, 6)).map(|_| rng.word()).collect();
                 let hbytes: Vec<u8> = hw.iter().flat_map(|w| w.to_be_bytes()).collect();
                 push(&mut out, format!("THashWords {} {} {}", zlist(hw.iter().copied()), blist(&essential_hash::hash_words(&hw)), blist(&essential_hash::hash_bytes(&hbytes))), "hash_words", json!(hw.len()));
@@ -141,7 +162,48 @@ pub fn run(a: &Args) {
             "text" => {
                 let codes = |t: &str| -> String { zlist(t.bytes().map(|b| b as i64)) };
                 let optw = |r: Result<Vec<Word>, essential_types::convert::FromHexError>| -> String { match r { Ok(v) => format!("(Some {})", zlist(v.iter().copied())), Err(_) => "None".into() } };
-                match rng.below(4) {
+                match rng.below(6) {
+                    4 | 5 => {
+                        // the binary serde surface: postcard bytes of a random value of a random public type, compared with
+                        // the model's encoder and decoder; `5`: the bytes truncated or followed by garbage
+                        let damaged = rng.below(6) == 5 || rng.chance(1, 3);
+                        let kind = rng.below(10);
+                        let mut salt = [0u8; 32]; for b in salt.iter_mut() { *b = if rng.chance(1, 5) { 0xFF } else { rng.next() as u8 }; }
+                        let mut sg = [0u8; 64]; for b in sg.iter_mut() { *b = rng.next() as u8; }
+                        let sig = essential_types::Signature(sg, rng.next() as u8);
+                        let contract = Contract { predicates: (0..rng.range(0, 3)).map(|_| rand_pred(&mut rng)).collect(), salt };
+                        let coq_contract = |c: &Contract| format!("(Build_contract {} {})", list_of(&c.predicates, coq_pred), blist(&c.salt));
+                        fn enc<T: serde::Serialize + serde::de::DeserializeOwned + PartialEq>(v: &T) -> (Vec<u8>, bool) {
+                            let b = postcard::to_allocvec(v).unwrap();
+                            let ok = postcard::from_bytes::<T>(&b).map(|x| &x == v).unwrap_or(false);
+                            (b, ok)
+                        }
+                        fn acc<T: serde::de::DeserializeOwned>(b: &[u8]) -> bool { postcard::from_bytes::<T>(b).is_ok() }
+                        let sol = rand_sol(&mut rng);
+                        let (lit, (bytes, ok), accepts): (String, (Vec<u8>, bool), fn(&[u8]) -> bool) = match kind {
+                            0 => (format!("(PVContentAddress {})", blist(&salt)), enc(&ContentAddress(salt)), acc::<ContentAddress>),
+                            1 => (format!("(PVPredicateAddress {} {})", blist(&sol.predicate_to_solve.contract.0), blist(&sol.predicate_to_solve.predicate.0)), enc(&sol.predicate_to_solve), acc::<PredicateAddress>),
+                            2 => { let m = Mutation { key: (0..rng.range(0, 3)).map(|_| rng.word()).collect(), value: (0..rng.range(0, 3)).map(|_| rng.word()).collect() };
+                                   (format!("(PVMutation {})", coq_mut(&m)), enc(&m), acc::<Mutation>) }
+                            3 => (format!("(PVSolution {})", coq_sol(&sol)), enc(&sol), acc::<Solution>),
+                            4 => { let sols: Vec<Solution> = (0..rng.range(0, 3)).map(|_| rand_sol(&mut rng)).collect();
+                                   (format!("(PVSolutionSet {})", list_of(&sols, coq_sol)), enc(&SolutionSet { solutions: sols }), acc::<SolutionSet>) }
+                            5 => { let p = rand_pred(&mut rng); (format!("(PVPredicate {})", coq_pred(&p)), enc(&p), acc::<Predicate>) }
+                            6 => { let n = if rng.chance(1, 6) { rng.range(120, 300) } else { rng.range(0, 40) };
+                                   let p = Program((0..n).map(|_| rng.next() as u8).collect()); (format!("(PVProgram {})", blist(&p.0)), enc(&p), acc::<Program>) }
+                            7 => (format!("(PVContract {})", coq_contract(&contract)), enc(&contract), acc::<Contract>),
+                            8 => (format!("(PVSignature {} {})", blist(&sig.0), sig.1), enc(&sig), acc::<essential_types::Signature>),
+                            _ => { let lit = format!("(PVSignedContract (Build_signed_contract {} ({}, {})))", coq_contract(&contract), blist(&sig.0), sig.1);
+                                   (lit, enc(&essential_types::contract::SignedContract { contract, signature: sig }), acc::<essential_types::contract::SignedContract>) }
+                        };
+                        if damaged {
+                            let mut b = bytes.clone();
+                            if rng.chance(2, 3) { let k = rng.below(b.len() as u64 + 1) as usize; b.truncate(k); } else { for _ in 0..rng.range(1, 4) { b.push(rng.next() as u8); } }
+                            push(&mut out, format!("TPostcardDamaged {} {} {}", kind, blist(&b), coq_bool(accepts(&b))), "postcard_damaged", json!({"kind": kind, "len": b.len(), "accepted": accepts(&b)}));
+                        } else {
+                            push(&mut out, format!("TPostcard {} {} {}", lit, blist(&bytes), coq_bool(ok)), "postcard_bytes", json!({"kind": kind, "len": bytes.len()}));
+                        }
+                    }
                     3 => {
                         fn rt<T: serde::Serialize + serde::de::DeserializeOwned + PartialEq>(v: &T) -> (bool, bool) {
                             let j = serde_json::to_string(v).ok().and_then(|t| serde_json::from_str::<T>(&t).ok()).map(|b| &b == v).unwrap_or(false)
@@ -215,8 +277,17 @@ pub fn run(a: &Args) {
             }
             "addr" => {
                 match rng.below(5) {
-                    0 => { let p = rand_pred(&mut rng); push(&mut out, format!("TAddrPredicate {} {}", coq_pred(&p), blist(&content_addr(&p).0)), "addr_predicate", json!(p.nodes.len())); }
-                    1 => { let bs: Vec<u8> = (0..rng.range(0, 150)).map(|_| rng.next() as u8).collect(); push(&mut out, format!("TAddrProgram {} {}", blist(&bs), blist(&content_addr(&Program(bs.clone())).0)), "addr_program", json!(bs.len())); }
+                    0 => { let mut p = rand_pred(&mut rng);
+                           // now and then a predicate whose encoding crosses the 1 KiB / 2 KiB / 4 KiB marks (streaming or chunked hashing)
+                           if rng.chance(1, 5) {
+                               let n = *rng.pick(&[29usize, 30, 31, 45, 60, 61, 90, 120, 121]); let e = rng.range(0, 40) as usize;
+                               p = Predicate { nodes: (0..n).map(|_| Node { edge_start: if rng.chance(1, 2) { u16::MAX } else { rng.below(e as u64 + 1) as u16 },
+                                   program_address: ContentAddress({ let mut a = [0u8; 32]; for b in a.iter_mut() { *b = rng.next() as u8; } a }) }).collect(),
+                                   edges: (0..e).map(|_| rng.below(n as u64) as u16).collect() };
+                           }
+                           push(&mut out, format!("TAddrPredicate {} {}", coq_pred(&p), blist(&content_addr(&p).0)), "addr_predicate", json!(p.nodes.len())); }
+                    1 => { let n = if rng.chance(1, 6) { *rng.pick(&[1023i64, 1024, 1025, 2049, 4096, 4100]) } else { rng.range(0, 150) };
+                           let bs: Vec<u8> = (0..n).map(|_| rng.next() as u8).collect(); push(&mut out, format!("TAddrProgram {} {}", blist(&bs), blist(&content_addr(&Program(bs.clone())).0)), "addr_program", json!(bs.len())); }
                     2 => { let s = rand_sol(&mut rng); let pc = essential_hash::serialize(&s); push(&mut out, format!("TAddrSolution {} {} {}", coq_sol(&s), blist(&pc), blist(&content_addr(&s).0)), "addr_solution", json!(pc.len())); }
                     3 => {
                         let mut ps: Vec<Predicate> = (0..rng.range(0, 4)).map(|_| rand_pred(&mut rng)).collect();
@@ -280,7 +351,8 @@ pub fn run(a: &Args) {
                     }
                 }
             }
-        }
+        } }));
+        if r.is_err() { push(&mut out, "TPanicked".into(), "impl_panic", json!({"kind": kind, "round": i})); }
     }
     out.write(&a.out, a.shards, "types");
 }
